@@ -60,6 +60,7 @@ Fixpoint resolve (m : maps) (t : term) {struct t} : term :=
       else if is_kind "TPath" l then
         match ks' with
         | [q'; Node lp (Node ls sargs :: rest)] =>
+            if no_qself q' then        (* after a qualified self the path names a trait or an item (fix F32) *)
             match sget (ty_map m) (ld ls) with
             | Some ty =>
                 match rest with
@@ -76,23 +77,29 @@ Fixpoint resolve (m : maps) (t : term) {struct t} : term :=
                 | _, _ => Node l ks'
                 end
             end
+            else Node l ks'
         | _ => Node l ks'
         end
       else if is_kind "EPath" l then
         match ks' with
         | [q'; Node lp (Node ls sargs :: rest)] =>
-            match sget (ct_map m) (ld ls) with
-            | Some v =>
+            if no_qself q' then
+            match sget (ty_map m) (ld ls), rest with
+            | Some ty, _ :: _ =>
+                Node (K "EPath" "") [Node (K "OSome" "") [Node (K "QSelf" "0") [ty]]; Node (K "Path" "::") rest]
+            | _, _ =>
+            (* a const parameter is a value: only a bare name refers to it (fix F32) *)
+            match bare_name (Node l ks'), sget (ct_map m) (ld ls) with
+            | Some _, Some v =>
                 match bare_name v with
                 | Some y => Node l [q'; Node lp (Node (K "Seg" y) sargs :: rest)]
-                | None => match bare_name (Node l ks') with
-                          | Some _ => if is_lit_or_block v || is_kind "EParen" (tlabel v) then v
-                                      else Node (K "EParen" "") [v]
-                          | None => Node l ks'
-                          end
+                | None => if is_lit_or_block v || is_kind "EParen" (tlabel v) then v
+                          else Node (K "EParen" "") [v]
                 end
-            | None => Node l ks'
+            | _, _ => Node l ks'
             end
+            end
+            else Node l ks'
         | _ => Node l ks'
         end
       else Node l ks'
